@@ -5,7 +5,7 @@ R18.2 every length of the proof type family is pinned by an error-returning guar
 R18.3 every entry point validates (and propagates the error) before any other use of the proof
 R18.4 no input-sized allocation in the decoders
 """
-from . import flow, ob, pins, cha as cha_mod
+from . import flow, ob, pins, interval, cha as cha_mod
 from .facts import parse_path, strip_generics, split_top, ty_adt
 
 # ----------------------------------------------------------------------------- helpers
@@ -180,6 +180,7 @@ def run(F, ck, tier):
                 continue
             seen.add(key)
             ck.ob('R18.3', key, False, '%s uses the proof in %s() %s: a malformed proof reaches this call unvalidated' % (fn.qual, e.q, 'before the shape validator runs' if validated else '(there is no validation at all on this path)'), e.loc())
+    chunk_sites(F, ck, C)
     if tier == 'thorough':
         census(F, ck, C)
     ck.decided += ['validators/decoders contain no input-reachable panic site (asserts, unchecked indexing, unwraps) in their workspace call closure',
@@ -187,6 +188,111 @@ def run(F, ck, tier):
     ck.undecided += ['panic-freedom of the whole verifier after validation (needs length reasoning; see thorough census)', 'that accepted proofs are valid (C02/C03/C05)']
     return ('Decides structural necessary conditions of C18: totality of validators and decoders w.r.t. input-derived operands, exhaustive length pinning of the proof type family, '
             'validate-before-use at each entry point and absence of input-sized allocation. Does not decide panic-freedom of all post-validation code.')
+
+
+CHUNKERS = {'chunks', 'chunks_exact', 'rchunks', 'rchunks_exact', 'windows', 'chunks_mut', 'chunks_exact_mut', 'step_by'}
+
+
+def _zero_lit(n):
+    return n.get('k') == 'Lit' and n.get('lk') == 'int' and str(n.get('v')) in ('0', '1')
+
+
+def _mentions(n, names):
+    from .facts import walk
+    return any(x.get('k') in ('MCall', 'Call') and ((x.get('n') in names) or (x.get('k') == 'Call' and (x['f'].get('d') or '').split('::')[-1] in names)) for x in walk(n)) \
+        or any(x.get('k') == 'Local' and x.get('n') in names for x in walk(n))
+
+
+def positive_zero_tests(cond, names, recv_paths, fl, fr_eval):
+    """does `cond` (the condition of an Err-returning guard) force "size > 0 whenever the chunked value is present"?
+    accepted forms: a > / != / >= comparison of a size expression with 0 or 1; any comparison of it paired by ==/!= with a presence
+    test; a (negated) is_empty() on the chunked value.  `size == 0` alone (the None arm of today's code) is not one."""
+    from .facts import walk
+    for x in walk(cond):
+        if x.get('k') == 'Bin':
+            l, r, op = x['l'], x['r'], x['op']
+            if op in ('Gt', 'Ne', 'Ge') and _zero_lit(r) and _mentions(l, names):
+                return True
+            if op in ('Lt', 'Ne', 'Le') and _zero_lit(l) and _mentions(r, names):
+                return True
+            if op in ('Eq', 'Ne'):
+                for a, b in ((l, r), (r, l)):
+                    if any(y.get('k') == 'MCall' and y.get('n') in ('is_some', 'is_none') for y in walk(a)) and _mentions(b, names):
+                        return True
+        if x.get('k') == 'MCall' and x.get('n') == 'is_empty':
+            return True
+    return False
+
+
+def chunk_sites(F, ck, C):
+    """R18.6: a chunk size that can be 0 for a legitimate configuration must not meet proof data that validation lets through"""
+    ck.rule('R18.6', 'chunks()/windows()/step_by() over proof data in a verifier: the size has a lower bound >= 1 (interval analysis through the trait-default size functions), '
+                     'or an Err-returning guard forces the size to be positive whenever the chunked part of the proof is present')
+    from .facts import walk
+    entries = [('starky::verifier::verify_stark_proof_with_challenges', 'starky', {'proof', 'public_inputs'}),
+               ('plonk::verifier::verify_with_challenges', 'plonky2', {'proof'}),
+               ('fri::verifier::verify_fri_proof', 'plonky2', {'proof', 'openings', 'initial_merkle_caps'}),
+               ('batch_fri::verifier::verify_batch_fri_proof', 'plonky2', {'proof', 'openings', 'initial_merkle_caps'})]
+    # intervals of the size functions: an abstract trait method may return anything; defaults are evaluated
+    calls = {'constraint_degree': (0, interval.INF)}
+    for q in ('Stark::quotient_degree_factor',):
+        for f in F.find(q, crate='starky'):
+            if f.body is not None:
+                try:
+                    calls[f.name] = interval.ev(f.body, {}, calls)
+                except interval.Unknown:
+                    pass
+    nsite = 0
+    for q, crate, roots in entries:
+        fn = F.one(q, crate=crate)
+        if fn is None:
+            ck.ob('R18.6', 'anchor:' + q, False, 'ANCHOR-MISSING: entry point %s' % q, q)
+            continue
+        roots = robust_roots(fn, roots)
+
+        def inl(c, d, ev):
+            t = [f for f in C.targets(c, d) if f.crate in ('plonky2', 'starky')]
+            t = [f for f in t if not any(x in f.file for x in ('hash/', 'gates/', 'gadgets/', 'field/'))]
+            return t[:3]
+        fl = flow.Flow(F, fn, inline=inl, depth=5)
+        guards = [e for e in fl.events if e.kind == 'guard']
+        for e in fl.events:
+            if e.kind != 'call' or e.name not in CHUNKERS or e.node.get('k') != 'MCall' or not e.node.get('a'):
+                continue
+            tb = tainted(e.recv if e.recv is not None else flow.EMPTY, roots)
+            if not tb:
+                continue
+            nsite += 1
+            size = e.node['a'][0]
+            key = 'chunk:%s:%s:%s' % (e.fn.name, e.name, base_name(dict(e=e.node['r'])) if True else '')
+            try:
+                iv = interval.ev(size, {}, calls)
+            except interval.Unknown as ex:
+                ck.ob('R18.6', key, True, 'size not evaluable by the interval analysis (%s): not decided here (trusted circuit data)' % ex, e.loc())
+                continue
+            if isinstance(iv, interval.Opt) or iv[0] >= 1:
+                ck.ob('R18.6', key, not isinstance(iv, interval.Opt), 'size in [%s, %s]' % (iv[0], iv[1]) if not isinstance(iv, interval.Opt) else 'size is an Option', e.loc())
+                continue
+            names = {x.get('n') for x in walk(size) if x.get('k') == 'MCall'} | {'num_quotient_polys', 'quotient_degree_factor', 'constraint_degree'}
+            prot = None
+            for g in guards:
+                if not (set(tb) & set(g.pins) or any(a.startswith(b) or b.startswith(a) for a in tb for b in g.pins)):
+                    continue
+                cond = g.node.get('c') if g.node.get('k') == 'If' else g.node.get('e')
+                if cond is not None and positive_zero_tests(cond, names, tb, fl, None):
+                    prot = g
+                    break
+            # an enclosing `if size > 0` at the site itself
+            if prot is None:
+                for fr_ in e.ctx:
+                    if fr_[0] == 'if' and positive_zero_tests(fr_[2].get('c') or fr_[2], names, tb, fl, None):
+                        prot = fr_[2]
+                        break
+            ck.ob('R18.6', key, prot is not None,
+                  'size can be 0 but a guard forces it positive when the data is present' if prot is not None else
+                  'PANIC ON MALFORMED PROOF: %s(%s) in %s - the size evaluates to [%s, %s] (0 for a STARK without constraints), the chunked value %s comes from the proof, and no Err-returning guard forces the size to be '
+                  'positive when that part of the proof is present: a proof carrying an (empty) value there reaches chunks(0), which panics' % (e.name, 'size', e.fn.qual, iv[0], iv[1], tb[0][2:]), e.loc())
+    ck.floor('R18.6', 'chunking sites over proof data in verifier closures', nsite, 2)
 
 
 def census(F, ck, C):
